@@ -368,6 +368,126 @@ Example keyword_call_example :
   = Lift.ONum (I (-2)).
 Proof. vm_compute. reflexivity. Qed.
 
+(* --- the homomorphism for ALL operand kinds (deepening round 2) --- *)
+(* One evaluation step, exhaustive over the kinds of BOTH operands (number, Function, Stream, Pattern,
+   list/tuple, ChannelList, Operand/Rest and every composite): whichever operand composes, calling /
+   pulling / streaming the object `a op b`, or its items, or its value, is the selector applied to the same
+   evaluation step of the operands, a on the LEFT (a non-lazy operand stands for itself resp. the constant
+   stream).  Every selector, every environment.  Together with list_binop_wrap_law_recursive this is the
+   lifting law for the whole mixed-kind matrix at the level of one step; the big-step statement
+   `eval (a op b) = map2_wrap op (eval a) (eval b)` is its iteration (proved for function objects:
+   lift_hom_functions_nary; see notes/C15_lift.md "Partial theorems" for what is left). *)
+Theorem lift_binop_hom_step :
+  forall (env : nat -> num) (fx : bool) (g : Lift.op2) (a b : Lift.obj),
+  Lift.is_err a = false -> Lift.is_err b = false ->
+  let n := S (Lift.odepth a + Lift.odepth b) in
+  match Lift.class_of a with
+  | Lift.CFn => Lift.call env fx (Lift.apply_binop g a b) = Lift.sel_apply2 g (Lift.callv env fx a) (Lift.callv env fx b)
+  | Lift.CStr => Lift.xpull Lift.MPull (Lift.apply_binop g a b)
+                 = Lift.szip (Lift.sel_apply2 g) (Lift.xpull Lift.MPull a) (Lift.xpull Lift.MStream b)
+  | Lift.CPat => Lift.xpull Lift.MStream (Lift.apply_binop g a b)
+                 = Lift.szip (Lift.sel_apply2 g) (Lift.xpull Lift.MStream a) (Lift.xpull Lift.MStream b)
+  | Lift.CSeq ListAlg.KChan =>
+      Lift.apply_binop g a b = ListAlg.list_binop_f Lift.oview Lift.OSeq Lift.OErr n (C15_lift.sel2_f n g) a b ListAlg.KChan
+  | Lift.COperand r =>
+      Lift.apply_binop g a b = Lift.mk_operand r (C15_lift.sel2_f n g (Lift.operand_value a) (Lift.operand_value b))
+  | _ =>
+    match Lift.class_of b with
+    | Lift.CFn => Lift.call env fx (Lift.apply_binop g a b) = Lift.sel_apply2 g a (Lift.call env fx b)
+    | Lift.CStr => Lift.xpull Lift.MPull (Lift.apply_binop g a b)
+                   = Lift.szip (Lift.sel_apply2 g) (Lift.SConst a) (Lift.xpull Lift.MPull b)
+    | Lift.CPat => Lift.xpull Lift.MStream (Lift.apply_binop g a b)
+                   = Lift.szip (Lift.sel_apply2 g) (Lift.SConst a) (Lift.xpull Lift.MStream b)
+    | Lift.CSeq ListAlg.KChan =>
+        Lift.apply_binop g a b = ListAlg.list_binop_f Lift.oview Lift.OSeq Lift.OErr n (C15_lift.sel2_f n g) a b ListAlg.KChan
+    | Lift.COperand r => Lift.apply_binop g a b = Lift.mk_operand r (C15_lift.sel2_f n g a (Lift.operand_value b))
+    | _ => match Lift.num_of a, Lift.num_of b with
+           | Some x, Some y => Lift.apply_binop g a b = Lift.ONum (snd g x y)
+           | _, _ => Lift.apply_binop g a b = Lift.OErr ListAlg.EType
+           end
+    end
+  end.
+Proof. exact C15_lift.lift_binop_hom_step. Qed.
+
+Theorem lift_unop_hom_step :
+  forall (env : nat -> num) (fx : bool) (g : Lift.op1) (a : Lift.obj), Lift.is_err a = false ->
+  let n := S (Lift.odepth a) in
+  match Lift.class_of a with
+  | Lift.CFn => Lift.call env fx (Lift.apply_unop g a) = Lift.sel_apply1 g (Lift.call env fx a)
+  | Lift.CStr => Lift.xpull Lift.MPull (Lift.apply_unop g a) = Lift.smap (Lift.sel_apply1 g) (Lift.xpull Lift.MPull a)
+  | Lift.CPat => Lift.xpull Lift.MStream (Lift.apply_unop g a) = Lift.smap (Lift.sel_apply1 g) (Lift.xpull Lift.MStream a)
+  | Lift.CSeq ListAlg.KChan =>
+      Lift.apply_unop g a = ListAlg.list_unop_f Lift.oview Lift.OSeq Lift.OErr n (C15_lift.sel1_f n g) a ListAlg.KChan
+  | Lift.COperand r => Lift.apply_unop g a = Lift.mk_operand r (C15_lift.sel1_f n g (Lift.operand_value a))
+  | Lift.CNum => match Lift.num_of a with Some x => Lift.apply_unop g a = Lift.ONum (snd g x) | None => True end
+  | _ => Lift.apply_unop g a = Lift.OErr ListAlg.EType
+  end.
+Proof. exact C15_lift.lift_unop_hom_step. Qed.
+
+(* ChannelList op list/tuple/ChannelList whose items are ANY lazy objects (numbers, Functions, Streams,
+   Patterns and their composites, mixed): length = max, item i = a[i mod |a|] op b[i mod |b|] by the
+   dispatching operator *)
+Theorem chan_binop_wrap_law_mixed :
+  forall (g : Lift.op2) (k : ListAlg.kind) (la lb0 : list Lift.obj),
+  la <> nil -> lb0 <> nil ->
+  List.Forall (fun o : Lift.obj => Lift.odepth o = 0%nat) la -> List.Forall (fun o : Lift.obj => Lift.odepth o = 0%nat) lb0 ->
+  exists r : list Lift.obj,
+    Lift.apply_binop g (Lift.OSeq ListAlg.KChan la) (Lift.OSeq k lb0) = Lift.OSeq ListAlg.KChan r
+    /\ length r = Nat.max (length la) (length lb0)
+    /\ forall i : nat, (i < Nat.max (length la) (length lb0))%nat ->
+         List.nth i r (Lift.ONum NErr)
+         = Lift.sel_apply2 g (List.nth (Nat.modulo i (length la)) la (Lift.ONum NErr))
+                             (List.nth (Nat.modulo i (length lb0)) lb0 (Lift.ONum NErr)).
+Proof. exact C15_lift.chan_binop_wrap_law_mixed. Qed.
+
+(* function objects built from numbers, primitive functions and ANY unary / binary / n-ary compositions,
+   nested arbitrarily (NaropFunction evaluating every callable argument): the three homomorphisms by
+   induction, each result again such an object *)
+Theorem lift_hom_functions_nary :
+  forall (env : nat -> num) (g1 : Lift.op1) (g2 : Lift.op2) (g3 : Lift.op3) (a b : Lift.obj) (args : list Lift.obj),
+  C15_lift.nf3 a = true -> C15_lift.nf3 b = true -> List.forallb C15_lift.nf3 args = true ->
+  (Lift.is_fn a = true ->
+     Lift.callv env true (Lift.apply_unop g1 a) = Lift.ONum (snd g1 (C15_lift.fval3 env a))
+     /\ C15_lift.nf3 (Lift.apply_unop g1 a) = true)
+  /\ ((Lift.is_fn a || Lift.is_fn b)%bool = true ->
+     Lift.callv env true (Lift.apply_binop g2 a b) = Lift.ONum (snd g2 (C15_lift.fval3 env a) (C15_lift.fval3 env b))
+     /\ C15_lift.nf3 (Lift.apply_binop g2 a b) = true)
+  /\ (Lift.is_fn a = true ->
+     Lift.callv env true (Lift.apply_narop g3 a args)
+       = Lift.ONum (snd g3 (C15_lift.fval3 env a) (List.map (C15_lift.fval3 env) args))
+     /\ C15_lift.nf3 (Lift.apply_narop g3 a args) = true).
+Proof. exact C15_lift.lift_hom_fn_nary. Qed.
+
+(* mixed kinds, computed: routine [1, 2] - f is the stream of the composed functions 1 - f, 2 - f; called at the
+   argument where f gives 10 they give -9, -8; ChannelList([f, 3]) * (routine [1, 2],) multiplies item-wise *)
+Example mixed_kinds_example :
+  let env := fun _ : nat => I 10 in
+  let s := Lift.OStr (cons (I 1) (cons (I 2) nil)) in
+  Lift.xpull Lift.MPull (Lift.apply_binop (Lift.SPy, nsub) s (Lift.OFn 0))
+  = Lift.SFin (cons (Lift.OBinFn (Lift.SPy, nsub) (Lift.ONum (I 1)) (Lift.OFn 0))
+              (cons (Lift.OBinFn (Lift.SPy, nsub) (Lift.ONum (I 2)) (Lift.OFn 0)) nil))
+  /\ Lift.den_norm (Lift.eval_f env true 20 (Lift.apply_binop (Lift.SPy, nsub) s (Lift.OFn 0)))
+     = Lift.DStr (cons (Lift.DCall (Lift.DNum (I (-9)))) (cons (Lift.DCall (Lift.DNum (I (-8)))) nil))
+  /\ Lift.den_norm (Lift.eval_f env true 20
+        (Lift.apply_binop (Lift.SPy, nmul) (Lift.OSeq ListAlg.KChan (cons (Lift.OFn 0) (cons (Lift.ONum (I 3)) nil)))
+                                           (Lift.OSeq ListAlg.KTuple (cons s nil))))
+     = Lift.DSeq ListAlg.KChan (cons (Lift.DCall (Lift.DStr (cons (Lift.DNum (I 10)) (cons (Lift.DNum (I 20)) nil))))
+                               (cons (Lift.DStr (cons (Lift.DNum (I 3)) (cons (Lift.DNum (I 6)) nil))) nil)).
+Proof. vm_compute. repeat split; reflexivity. Qed.
+(* nested n-ary composition: (f.clip(g - 5, g + 5) + 1)(x) with f(x) = 4, g(x) = 6 is clip 4 1 11 + 1 = 5 *)
+Example nary_induction_example :
+  let env := fun id : nat => match id with O => I 4 | _ => I 6 end in
+  let c := Lift.apply_narop (Lift.SDec, C15_lift.clip_demo) (Lift.OFn 0)
+             (cons (Lift.apply_binop (Lift.SPy, nsub) (Lift.OFn 1) (Lift.ONum (I 5)))
+                   (cons (Lift.apply_binop (Lift.SPy, nadd) (Lift.OFn 1) (Lift.ONum (I 5))) nil)) in
+  C15_lift.nf3 (Lift.apply_binop (Lift.SPy, nadd) c (Lift.ONum (I 1))) = true
+  /\ Lift.callv env true (Lift.apply_binop (Lift.SPy, nadd) c (Lift.ONum (I 1))) = Lift.ONum (I 5).
+Proof. vm_compute. split; reflexivity. Qed.
+
+Print Assumptions lift_binop_hom_step.
+Print Assumptions chan_binop_wrap_law_mixed.
+Print Assumptions lift_hom_functions_nary.
+
 (* non-vacuity: the hypotheses are met by concrete arguments and the kernels compute *)
 Example wrap_example : canon (py_wrap (F (7 # 2)) (F (1 # 2)) (F (5 # 2))) = (1, 3, 2)%Z.
 Proof. vm_compute. reflexivity. Qed.
